@@ -3,6 +3,9 @@ def compress_settings(settings):
     scenario_managers = dict[str, dict[str, dict[str, dict[str, [float]]]]]()
         
     for step in settings.keys():
+        # a step that was run without settings is logged as None
+        if settings[step] is None:
+            continue
         # loop over all scenario managers in the step
         for scenario_manager_name in settings[step]:
             scenario_manager = settings[step][scenario_manager_name]
